@@ -31,13 +31,32 @@ def bits_of(p, n):
     return [bool((p >> i) & 1) for i in range(n)]
 
 
-def solve(s, limit=30):
+def _z3_limit(ms=120000):
+    """z3's check() cannot be interrupted by a Python signal handler: give every z3 solver a time limit.
+    A run that hits it surfaces as Z3Exception('model is not available') and is counted as inconclusive."""
+    try:
+        import z3
+        z3.set_param("timeout", ms)
+    except Exception:
+        pass
+
+
+INCONCLUSIVE = "inconclusive (z3 time limit)"
+
+
+def solve(s, limit=300, call="find_answer"):
+    _z3_limit()
     signal.signal(signal.SIGALRM, _alarm)
     signal.alarm(limit)
     try:
         with warnings.catch_warnings():
             warnings.simplefilter("ignore")
-            return s.find_answer("z3")
+            try:
+                return s.find_answer("z3") if call == "find_answer" else s.solve("z3")
+            except Exception as e:  # noqa
+                if type(e).__name__ == "Z3Exception" and "model is not available" in str(e):
+                    return INCONCLUSIVE
+                raise
     finally:
         signal.alarm(0)
 
@@ -123,7 +142,7 @@ def run_conn(job):
             got = "DidNotTerminate"
         except Exception as e:  # noqa
             got = "raised " + type(e).__name__
-        if got != exp:
+        if got != exp and got != INCONCLUSIVE:
             out.append({"pattern": p, "expected": exp, "observed": got})
     return out
 
@@ -195,7 +214,7 @@ def run_flags(job):
             got = "DidNotTerminate"
         except Exception as e:  # noqa
             got = "raised " + type(e).__name__
-        if got != exp:
+        if got != exp and got != INCONCLUSIVE:
             out.append({"pattern": p, "expected": exp, "observed": got})
     return out
 
@@ -247,12 +266,7 @@ def run_cycle(job):
                     fl.fix(bits)
                 passed = list(ret)
             s.add_answer_key(passed)
-            signal.signal(signal.SIGALRM, _alarm)
-            signal.alarm(30)
-            try:
-                got = s.solve("z3")
-            finally:
-                signal.alarm(0)
+            got = solve(s, call="solve")
             if got is True and not why:
                 vals = [v.sol for v in passed]
                 want = bits_of(mask, npts)
@@ -262,7 +276,7 @@ def run_cycle(job):
             got = "DidNotTerminate"
         except Exception as e:  # noqa
             got = "raised " + type(e).__name__
-        if got != exp or why:
+        if (got != exp or why) and got != INCONCLUSIVE:
             out.append({"pattern": p, "expected": exp, "observed": got, "why": why})
     return out
 
@@ -306,3 +320,265 @@ def path_nonprimitive_raises(obj):
     except Exception:
         return True
     return False
+
+
+# ---------------------------------------------------------------------------------------
+# C05: division_connected
+
+import cspuz.configuration as _cfgmod
+from cspuz.array import IntArray1D, IntArray2D
+from cspuz.grid_frame import BoolInnerGridFrame
+
+
+def digits_of(L, n, R):
+    out = []
+    for _ in range(n):
+        out.append(L % R)
+        L //= R
+    return out
+
+
+def _div_setup(s, job):
+    obj, R = job["obj"], job["R"]
+    n = obj["graph"]["n"]
+    roots = None if job["rootsopt"] == 0 else [None if r < 0 else r for r in job["roots"]]
+    if obj["kind"] == "grid":
+        h, w = obj["h"], obj["w"]
+        division = s.int_array((h, w), 0, R - 1)
+        labs = list(division.flatten())
+        if roots is not None:
+            roots = [None if r is None else (r // w, r % w) for r in roots]
+        cg.division_connected(s, division, R, roots=roots, allow_empty_group=job["allow_empty"])
+    else:
+        arr = s.int_array(n, 0, R - 1)
+        labs = list(arr)
+        division = arr if job["form"] == "array" else labs
+        cg.division_connected(s, division, R, mk_graph(obj["graph"]), roots=roots,
+                              allow_empty_group=job["allow_empty"])
+    return labs
+
+
+def run_div(job):
+    n, R = job["obj"]["graph"]["n"], job["R"]
+    out = []
+    old = _cfgmod.config.use_graph_primitive
+    _cfgmod.config.use_graph_primitive = False
+    try:
+        for L, exp in zip(job["patterns"], job["expects"]):
+            s = Solver()
+            try:
+                labs = _div_setup(s, job)
+                for v, d in zip(labs, digits_of(L, n, R)):
+                    s.ensure(v == d)
+                got = solve(s)
+            except Watchdog:
+                got = "DidNotTerminate"
+            except Exception as e:  # noqa
+                got = "raised " + type(e).__name__
+            if got != exp and got != INCONCLUSIVE:
+                out.append({"pattern": L, "expected": exp, "observed": got})
+    finally:
+        _cfgmod.config.use_graph_primitive = old
+    return out
+
+
+def emit_div(job):
+    old = _cfgmod.config.use_graph_primitive
+    _cfgmod.config.use_graph_primitive = True
+    s = Solver()
+    try:
+        labs = _div_setup(s, job)
+    except Exception as e:  # noqa
+        return {"status": "exc", "exc": type(e).__name__}
+    finally:
+        _cfgmod.config.use_graph_primitive = old
+    return {"status": "ok", "exc": "", "prog": program(s), "base": job["R"],
+            "bits": [{"var": v.id, "neg": False, "isint": True} for v in labs], "fixed": []}
+
+
+def div_grid_int_root_raises():
+    s = Solver()
+    d = s.int_array((2, 2), 0, 1)
+    try:
+        cg.division_connected(s, d, 2, roots=[1, None])
+    except TypeError:
+        return True
+    except Exception:
+        return False
+    return False
+
+
+# ---------------------------------------------------------------------------------------
+# C07: variable groups, with and without borders
+
+def _sizes_arg(s, job, n):
+    kind, sizes = job["sizekind"], job["sizes"]
+    if kind == "none":
+        return None
+    if kind == "const1":
+        return 1
+    if kind == "const2":
+        return 2
+    if kind == "shared":
+        return s.int_var(1, n)
+    return [None if x < 0 else x for x in sizes]
+
+
+def run_groups(job):
+    obj = job["obj"]
+    n = obj["graph"]["n"]
+    out = []
+    for idx, (rgs, exp) in enumerate(zip(job["parts"], job["expects"])):
+        s = Solver()
+        why = ""
+        try:
+            gs = _sizes_arg(s, job, n)
+            if obj["kind"] == "grid":
+                h, w = obj["h"], obj["w"]
+                if isinstance(gs, list):
+                    gs2 = [gs[y * w:(y + 1) * w] for y in range(h)]
+                    if job["form"] == "array":      # sizes as an IntArray2D of variables, holes left free
+                        arr = s.int_array((h, w), 1, n)
+                        for i, x in enumerate(gs):
+                            if x is not None:
+                                s.ensure(arr[i // w, i % w] == x)
+                        gs2 = arr
+                    gid = cg.division_connected_variable_groups(s, shape=(h, w), group_size=gs2)
+                else:
+                    gid = cg.division_connected_variable_groups(s, shape=(h, w), group_size=gs)
+                if tuple(gid.shape) != (h, w):
+                    why = f"returned shape {gid.shape}"
+                ids = list(gid.flatten())
+            else:
+                gid = cg.division_connected_variable_groups(s, graph=mk_graph(obj["graph"]), group_size=gs)
+                ids = list(gid)
+            for u in range(n):
+                for v in range(u + 1, n):
+                    s.ensure((ids[u] == ids[v]) == (rgs[u] == rgs[v]))
+            got = solve(s)
+        except Watchdog:
+            got = "DidNotTerminate"
+        except Exception as e:  # noqa
+            got = "raised " + type(e).__name__
+        if (got != exp or why) and got != INCONCLUSIVE:
+            out.append({"pattern": idx, "rgs": rgs, "expected": exp, "observed": got, "why": why})
+    return out
+
+
+def _border_setup(s, job, prim):
+    obj = job["obj"]
+    n = obj["graph"]["n"]
+    m = len(obj["graph"]["edges"])
+    sizes = job["sizes"]
+    kind = job["sizekind"]
+    per_vertex = [None] * n if kind == "none" else [1] * n if kind == "const1" else [2] * n if kind == "const2" \
+        else [None if x < 0 else x for x in sizes]
+    if obj["kind"] == "inner":
+        h, w = obj["h"], obj["w"]
+        arr = s.int_array((h, w), 1, n)
+        for i, x in enumerate(per_vertex):
+            if x is not None:
+                s.ensure(arr[i // w, i % w] == x)
+        inner = BoolInnerGridFrame(s, h, w)
+        edges, _ = cg._from_grid_frame(inner.dual())
+        ids = [e.id for e in edges]
+        cg.division_connected_variable_groups_with_borders(s, group_size=arr, is_border=inner,
+                                                           use_graph_primitive=prim)
+        return [{"var": i, "neg": False} for i in ids], []
+    fl = Flags(s, m, job["form"])
+    gs = None if kind == "none" else per_vertex
+    cg.division_connected_variable_groups_with_borders(s, group_size=gs, is_border=fl.as_arg(),
+                                                       graph=mk_graph(obj["graph"]), use_graph_primitive=prim)
+    info = fl.emit_info()
+    return info["bits"], info["fixed"]
+
+
+def run_borders(job):
+    m = len(job["obj"]["graph"]["edges"])
+    out = []
+    for p, exp in zip(job["patterns"], job["expects"]):
+        s = Solver()
+        try:
+            bits, fixed = _border_setup(s, job, False)
+            for b, val in zip(bits, bits_of(p, m)):
+                s.ensure(s.variables[b["var"]] == (val != b["neg"]))
+            for f in fixed:
+                s.ensure(s.variables[f["var"]] == f["val"])
+            got = solve(s)
+        except Watchdog:
+            got = "DidNotTerminate"
+        except Exception as e:  # noqa
+            got = "raised " + type(e).__name__
+        if got != exp and got != INCONCLUSIVE:
+            out.append({"pattern": p, "expected": exp, "observed": got})
+    return out
+
+
+def emit_borders(job):
+    s = Solver()
+    try:
+        bits, fixed = _border_setup(s, job, True)
+    except Exception as e:  # noqa
+        return {"status": "exc", "exc": type(e).__name__}
+    return {"status": "ok", "exc": "", "prog": program(s), "bits": bits, "fixed": fixed}
+
+
+# ---------------------------------------------------------------------------------------
+# C10: crossable loop / path
+
+def _cross_call(s, fr, job, prim):
+    if job["single_cycle"] and job.get("alias"):
+        return cg.active_edges_single_cycle_crossable(s, fr, use_graph_primitive=prim)
+    return cg.active_edges_connected_crossable(s, fr, single_cycle=job["single_cycle"], use_graph_primitive=prim)
+
+
+def run_cross(job):
+    obj = job["obj"]
+    h, w = obj["h"], obj["w"]
+    m = len(obj["graph"]["edges"])
+    npts = obj["graph"]["n"]
+    out = []
+    for p, exp, pm, cm in zip(job["patterns"], job["expects"], job["passed"], job["cross"]):
+        s = Solver()
+        why = ""
+        try:
+            fr = BoolGridFrame(s, h, w)
+            edges, _ = cg._from_grid_frame(fr)
+            ids = [e.id for e in edges]
+            passed, cross = _cross_call(s, fr, job, False)
+            if tuple(passed.shape) != (h + 1, w + 1) or tuple(cross.shape) != (h + 1, w + 1):
+                why = f"returned shapes {passed.shape} {cross.shape}"
+            _fix_ids(s, ids, bits_of(p, m))
+            pv, cv = list(passed.flatten()), list(cross.flatten())
+            s.add_answer_key(pv, cv)
+            got = solve(s, call="solve")
+            if got is True and not why:
+                if [v.sol for v in pv] != bits_of(pm, npts):
+                    why = f"is_passed {[v.sol for v in pv]} but the visited points are {bits_of(pm, npts)}"
+                elif [v.sol for v in cv] != bits_of(cm, npts):
+                    why = f"is_cross {[v.sol for v in cv]} but the 4-way points are {bits_of(cm, npts)}"
+        except Watchdog:
+            got = "DidNotTerminate"
+        except Exception as e:  # noqa
+            got = "raised " + type(e).__name__
+        if (got != exp or why) and got != INCONCLUSIVE:
+            out.append({"pattern": p, "expected": exp, "observed": got, "why": why})
+    return out
+
+
+def emit_cross(job):
+    obj = job["obj"]
+    h, w = obj["h"], obj["w"]
+    s = Solver()
+    try:
+        fr = BoolGridFrame(s, h, w)
+        edges, _ = cg._from_grid_frame(fr)
+        ids = [e.id for e in edges]
+        passed, cross = _cross_call(s, fr, job, True)
+        pv, cv = list(passed.flatten()), list(cross.flatten())
+    except Exception as e:  # noqa
+        return {"status": "exc", "exc": type(e).__name__}
+    return {"status": "ok", "exc": "", "prog": program(s),
+            "bits": [{"var": i, "neg": False} for i in ids], "fixed": [],
+            "outs": [{"vars": [v.id for v in pv], "masks": job["passed"]},
+                     {"vars": [v.id for v in cv], "masks": job["cross"]}]}
